@@ -58,6 +58,7 @@ func exhAlphabet() []Op {
 		{K: "upd", N: updN(4, pfx("t", "a"), pth("b"), ival(2))}, // older: stale
 		{K: "upd", N: delN(7, pfx("t"), pth("*"))},               // wildcard delete (covers meta)
 		{K: "upd", N: &NotiJ{TS: 5, Prefix: &PathJ{Target: "t"}}}, // empty
+		{K: "upd", N: updN(5, &PathJ{Target: "t", Origin: "meta", Elems: elems("a")}, pth("b"), ival(1))}, // origin "meta": indexed under meta
 		{K: "upd", N: &NotiJ{TS: 5, Prefix: pfx("t", "g"), Atomic: true}}, // atomic, empty
 		{K: "upd", N: &NotiJ{TS: 6, Prefix: pfx("t", "g"), Atomic: true, Upd: []UpdJ{{Path: pth("x"), Val: ival(1)}, {Path: pth("y"), Val: ival(2)}}}}, // atomic group of two: one leaf
 		{K: "upd", N: updN(8, &PathJ{Target: "t"}, &PathJ{Element: []string{"c", "d"}}, ival(1))}, // deprecated element path
@@ -145,6 +146,9 @@ func (g *gen) prefix(t string, pe []ElemJ) *PathJ {
 	p := &PathJ{Target: t, Elems: pe}
 	if g.r.Chance(1, 8) {
 		p.Origin = "o"
+		if g.r.Chance(1, 3) {
+			p.Origin = "meta" // a legal origin that makes the index path start with "meta"
+		}
 	}
 	return p
 }
@@ -298,8 +302,8 @@ func randomCase(r *vh.Rand, stream bool, maxOps int) *Case {
 }
 
 func ruleText() string {
-	return "corpus cases; every history of 1..D calls (D=3 quick, 4 thorough) over a 12-call alphabet on one target " +
-		"(update a/b@5, same value @6, other value @4, delete *, empty, atomic empty, atomic group of two, deprecated element path, Reset, ConnectError, Connect, UpdateMetadata); " +
+	return "corpus cases; every history of 1..D calls (D=3 quick, 4 thorough) over a 13-call alphabet on one target " +
+		"(update a/b@5, same value @6, other value @4, delete *, empty, update with origin meta, atomic empty, atomic group of two, deprecated element path, Reset, ConnectError, Connect, UpdateMetadata); " +
 		"seeded random histories of 3..14 calls over 1..2 targets (single/multi/atomic/delete/empty notifications, timestamps mostly 1..4 so that " +
 		"stale / equal / newer all occur, event-driven on/off, future threshold in {0,2}, wildcard deletes, element-form and prefix-only paths, " +
 		"Sync/Connect/ConnectError/Reset/UpdateMetadata/UpdateSize under a monotone clock); " +
